@@ -59,11 +59,29 @@ def run(ctx):
             continue
         s = "03/04/2015"
         reg.append((add(mk(s, langs=[lang], region=region)), add(mk(s, locales=[loc])), lang, loc))
+    # several languages with one region (valid for all / some / none of them): the reported locale belongs to the selection and the
+    # result is what that very locale gives when selected by name (in a process that never saw the regional selection)
+    regions = sorted({r["name"].split("-")[-1] for r in ld["locales"] if "-" in r["name"] and r["name"].split("-")[-1].isupper()})
+    infos = {r["name"]: dict(r["words"]) for r in ld["langs"]}
+    multi = []
+    for _ in range(60 if tier == "quick" else 1200):
+        rgn = R.choice(regions) if R.random() < 0.7 else R.choice(["AU", "CA", "CH", "BE", "IN", "US", "GB"])
+        have = [l for l in major if (l + "-" + rgn) in locs_of[l]]
+        k = R.randint(1, 3)
+        L = R.sample(major, k)
+        if have and R.random() < 0.7:
+            L[R.randrange(k)] = R.choice(have)
+        L = list(dict.fromkeys(L))
+        target = R.choice(L)
+        mn = (infos.get(target, {}).get(R.choice(["march", "august", "december"])) or ["3"])[0]
+        s = R.choice(["03/04/2015", "%d %s 2015" % (R.randint(1, 28), mn)])
+        given = R.random() < 0.3
+        multi.append((add(mk(s, langs=L, region=rgn, **({"givenOrder": True} if given else {}))), s, L, rgn))
     # full autodetection (205 languages) reproducibility on a thin sample
     auto = []
     for s in R.sample(sel, 12 if tier == "quick" else 150):
         auto.append((s, add(mk(s, auto=True))))
-    lres = pmap(lib_gdd, cases, chunksize=16)
+    lres = pmap(lib_gdd, cases, chunksize=16, force=True)
     viol = []
     distinct = set()
 
@@ -96,6 +114,25 @@ def run(ctx):
         a, b = val(i1), val(i2)
         if a != b:
             viol.append({"law": "languages=[l], region=R equals locales=[l-R]", "language": lang, "locale": loc, "by_region": a, "by_locale": b})
+    # regional selections: reported locale, and the same locale selected by name in clean processes
+    byname = []
+    for i, s, L, rgn in multi:
+        r = val(i)
+        if r is None:
+            continue
+        if str(r).startswith("ERR:"):
+            viol.append({"law": "selecting languages with a region never raises", "s": s, "languages": L, "region": rgn, "result": r}); continue
+        loc = r.rsplit("|", 1)[1]
+        lang = next((l for l in L if loc == l or loc == l + "-" + rgn), None)
+        if lang is None:
+            viol.append({"law": "reported locale belongs to the selected languages (and carries the selected region or none)", "s": s, "languages": L, "region": rgn, "result": r})
+            continue
+        byname.append((i, s, L, rgn, loc, mk(s, locales=[loc])))
+    bres = pmap(lib_gdd, [b[-1] for b in byname], chunksize=4, force=True)
+    for (i, s, L, rgn, loc, _), b in zip(byname, bres):
+        if b.get("r") != val(i):
+            viol.append({"law": "a regional selection applies the conventions of the locale it reports (same result as selecting that locale by name)", "s": s,
+                         "languages": L, "region": rgn, "reported": loc, "by_region": val(i), "by_name_in_a_clean_process": b})
     auto2 = []
     for s, i in auto:
         r = val(i)
@@ -122,7 +159,7 @@ def run(ctx):
     cov = {"evaluations": len(cases) + len(det), "distinct_nontrivial": len(distinct),
            "rule": "corpus strings × random language subsets/orderings (containing or not the detected language), use_given_order on/off, DEFAULT_LANGUAGES, region vs locale, full autodetection sample; non-trivial = distinct strings with a multi-language result",
            "samples": [{"s": p[0], "languages": p[2], "use_given_order": p[4], "default_languages": p[7]} for p in plan[:5]],
-           "laws_checked": 6, "law_violations": len(viol), "region_locale_pairs": len(reg), "autodetect_all_languages": len(auto),
+           "laws_checked": 9, "law_violations": len(viol), "region_locale_pairs": len(reg), "multi_language_region_selections": len(multi), "of_which_parsed": len(byname), "autodetect_all_languages": len(auto),
            "model_compared": len(sub) if "model-build" not in ctx["broken"] else 0, "model_rejected": dict(rej), "model_drift": len(drift),
            "model_drift_samples": [{"s": d["case"]["s"], "langs": d["case"].get("langs"), "model": d["model"], "lib": d["lib"]} for d in drift[:5]]}
     return {"violations": out, "known": [], "coverage": cov, "level": "proof",
